@@ -190,7 +190,7 @@ func Unsetenv(name string) {
 		time.Local = time.UTC // the sandbox's /etc/localtime
 	}
 }
-func Dump(name string, v any)     {}
+func Dump(name string, v any) {}
 
 func IteU64(c bool, a, b uint64) uint64 {
 	if c {
